@@ -505,12 +505,13 @@ impl<T: Storage> RawNode<T> {
 
         if self.prev_ss.raft_state != StateRole::Leader && raft.state == StateRole::Leader {
             // The vote msg which makes this peer become leader has been sent after persisting.
-            // So the remaining records must be generated during being candidate which can not
-            // have last_entry and snapshot(if so, it should become follower).
-            for record in self.records.drain(..) {
-                assert_eq!(record.last_entry, None);
-                assert_eq!(record.snapshot, None);
-            }
+            // So the remaining records are normally generated during being candidate and have
+            // neither last_entry nor snapshot: they can be dropped. The exception is a node
+            // that wins by its own vote (single voter) while an earlier Ready with entries or
+            // a snapshot is still being persisted asynchronously: such records are kept so that
+            // `on_persist_ready` still reports them.
+            self.records
+                .retain(|record| record.last_entry.is_some() || record.snapshot.is_some());
         }
 
         let ss = raft.soft_state();
